@@ -94,7 +94,7 @@ func (t *momTree) ensureLocked(path []string) error {
 	t.builds++
 	if len(parent) > 0 || len(t.prefix) > 0 {
 		if idx, err := n.InsertChain(t.chainLocked(parent)); err != nil {
-			return fmt.Errorf("builder could not adopt %v: idx %d %v", parent, idx, err)
+			return &honestRefusal{fmt.Sprintf("a fresh node refuses the chain %v that honest lab producers built one on top of the other (index %d): %v", parent, idx, err)}
 		}
 	}
 	us := syncVariantUsers[path[len(path)-1]]
@@ -289,6 +289,11 @@ type syncOpts struct {
 	local     bool   // before a delivery the node pools a block of an otherwise idle account that acknowledges its current frontier
 }
 
+// honestRefusal: a lab node refused momentums that other honest lab nodes produced and accepted.
+type honestRefusal struct{ what string }
+
+func (h *honestRefusal) Error() string { return h.what }
+
 func syncReplay(run *core.Run, tree *momTree, b *syncBehaviour, n int64, st *syncStats, o syncOpts) {
 	report := func(prop, key, what string) {
 		run.ReportFor(prop, prop+":"+key, what, map[string]interface{}{"kind": "sync-behaviour", "unit": tree.unit, "behaviour": b})
@@ -300,7 +305,8 @@ func syncReplay(run *core.Run, tree *momTree, b *syncBehaviour, n int64, st *syn
 	defer func() { f.Stop() }()
 	if len(tree.prefix) > 0 {
 		if idx, err := f.InsertChain(tree.wirePrefix()); err != nil {
-			core.Fatal("follower could not adopt the common prefix: %d %v", idx, err)
+			report("C02", "honestly-produced-prefix-refused", fmt.Sprintf("a fresh follower refuses the common prefix produced by an honest lab producer (index %d): %v", idx, err))
+			return
 		}
 	}
 	prevLen := 0
@@ -572,6 +578,11 @@ func syncCheckP(run *core.Run, maxH, unit, maxRollback int, sampleEvery int64, o
 		p.Stop()
 	}
 	if err := tree.buildAll(maxH); err != nil {
+		if hr, ok := err.(*honestRefusal); ok {
+			// not trouble of the driver: the code refuses a valid momentum it has the predecessor of (C02, second sentence)
+			run.Report("C02:honestly-produced-chain-refused-while-building-the-tree", hr.what, map[string]interface{}{"kind": "sync-tree"})
+			return
+		}
 		core.Fatal("sync tree: %v", err)
 	}
 	st := &syncStats{byErr: map[string]int64{}, byKind: map[string]int64{}}
